@@ -2,9 +2,13 @@
 
     The model of cte::fraccion_renovable_acs_nrb is Model/Cte.v.  Proved here: the documented error
     cases that do not depend on the supply mix, and that the fraction reads nothing that depends on
-    k_exp or on the reference area.  The closed forms of the canonical mixes, the range [0,1] for
-    consistent demands and the invariance under non-EPB / other services' consumption are decided by
-    the differential run (partial claim, see MANIFEST). *)
+    k_exp or on the reference area, and the closed forms of the canonical supply mixes: any supply without biomass
+    (direct electric + PV, heat pumps, solar thermal, district networks, boilers: C15_without_biomass, with the
+    special cases C15_nearby_supply_closed_form, C15_direct_electric_closed_form, C15_heat_pump, C15_solar_boiler),
+    biomass with nearby carriers only (C15_biomass_nearby) and biomass mixed with a carrier that is not nearby, with
+    or without declared output energy (C15_biomass_mixed, C15_biomass_mixed_without_output).  The range [0,1] for
+    consistent demands and the invariance under non-EPB / other services' consumption are decided by the
+    differential run (partial claim, see MANIFEST). *)
 From Cteepbd Require Import Model.Balance Model.Cte Proofs.EpFacts Proofs.CteFacts Props.C04.
 Open Scope Qc_scope.
 
@@ -94,6 +98,71 @@ Theorem C15_solar_boiler : forall fs S cr G,
   q_nrb_non_biomass fs [(TERMOSOLAR, S); (cr, G)] = Ok (S, S).
 Proof. exact q_nrb_solar_fuel. Qed.
 
+(** any DHW supply without biomass (no auxiliaries counted for DHW, no excluded heat pump, no cogenerated electricity
+    used for DHW): the renewable part of what the nearby carriers supply for DHW plus the on-site electricity used for
+    DHW, over the demand *)
+Theorem C15_without_biomass : forall ep v,
+  nd_ACS (ep_needs ep) = Some v -> ~ qabs (qsum v) < f32_epsilon ->
+  dhw_used_by_cr ep <> nil ->
+  match aget (dhw_used_by_cr ep) ELECTRICIDAD with Some E => qfrac 1 100 <= E | None => True end ->
+  match aget (dhw_used_by_cr ep) EAMBIENTE with Some A => qfrac 1 100 <= A | None => True end ->
+  aget (dhw_used_by_cr ep) BIOMASA = None -> aget (dhw_used_by_cr ep) BIOMASADENSIFICADA = None ->
+  qsum (map vals_sum (filter (fun e => is_aux e && has_service ACS e) (ep_data ep))) = 0 ->
+  qsum (map vals_sum (filter (fun e => is_used e && has_carrier EAMBIENTE e && contains (e_cmt e) TAG_EXCLUYE_SCOP) (ep_data ep))) = 0 ->
+  t_used_src_srv_opt ep EL_COGEN ACS = 0 ->
+  fraccion_renovable_acs_nrb ep
+  = (do nb <- q_nrb_non_biomass (ep_factors ep) (dhw_used_by_cr ep); Ok ((snd nb + t_used_src_srv_opt ep EL_INSITU ACS) / qsum v)).
+Proof. intros. eapply dhw_no_biomass; eassumption. Qed.
+
+(** heat pump: the ambient heat used for DHW counts in full (factor (1, 0, 0)) *)
+Theorem C15_heat_pump : forall fs E A, look fs EAMBIENTE RED SUMINISTRO STEP_A = Some (mkRNC 1 0 0) ->
+  q_nrb_non_biomass fs [(ELECTRICIDAD, E); (EAMBIENTE, A)] = Ok (A, A)
+  /\ q_nrb_non_biomass fs [(EAMBIENTE, A); (ELECTRICIDAD, E)] = Ok (A, A).
+Proof. exact q_nrb_heat_pump. Qed.
+
+(** one kind of biomass and nearby carriers only (no electricity used for DHW): what the other nearby carriers do not
+    supply of the demand is attributed to the biomass — declared output energy is not needed *)
+Theorem C15_biomass_nearby : forall ep v bio,
+  nd_ACS (ep_needs ep) = Some v -> ~ qabs (qsum v) < f32_epsilon ->
+  dhw_used_by_cr ep <> nil -> aget (dhw_used_by_cr ep) ELECTRICIDAD = None ->
+  match aget (dhw_used_by_cr ep) EAMBIENTE with Some A => qfrac 1 100 <= A | None => True end ->
+  (bio = BIOMASA /\ ahas (dhw_used_by_cr ep) BIOMASA = true /\ ahas (dhw_used_by_cr ep) BIOMASADENSIFICADA = false
+   \/ bio = BIOMASADENSIFICADA /\ ahas (dhw_used_by_cr ep) BIOMASA = false /\ ahas (dhw_used_by_cr ep) BIOMASADENSIFICADA = true) ->
+  forallb (fun p => cr_is_nearby (fst p)) (dhw_used_by_cr ep) = true ->
+  qsum (map vals_sum (filter (fun e => is_used e && has_carrier EAMBIENTE e && contains (e_cmt e) TAG_EXCLUYE_SCOP) (ep_data ep))) = 0 ->
+  t_used_src_srv_opt ep EL_INSITU ACS = 0 ->
+  fraccion_renovable_acs_nrb ep
+  = (do nb <- q_nrb_non_biomass (ep_factors ep) (dhw_used_by_cr ep); do fr <- ren_fraction (ep_factors ep) bio;
+     Ok ((snd nb + (qsum v - fst nb) * fr) / qsum v)).
+Proof. intros. eapply dhw_biomass_nearby; eassumption. Qed.
+
+(** biomass mixed with a carrier that is not nearby: the output energy declared by the biomass systems counts *)
+Theorem C15_biomass_mixed : forall ep v,
+  nd_ACS (ep_needs ep) = Some v -> ~ qabs (qsum v) < f32_epsilon ->
+  dhw_used_by_cr ep <> nil -> aget (dhw_used_by_cr ep) ELECTRICIDAD = None ->
+  match aget (dhw_used_by_cr ep) EAMBIENTE with Some A => qfrac 1 100 <= A | None => True end ->
+  ahas (dhw_used_by_cr ep) BIOMASA = true -> ahas (dhw_used_by_cr ep) BIOMASADENSIFICADA = false ->
+  forallb (fun p => cr_is_nearby (fst p)) (dhw_used_by_cr ep) = false ->
+  qsum (map vals_sum (filter (fun e => is_used e && has_carrier EAMBIENTE e && contains (e_cmt e) TAG_EXCLUYE_SCOP) (ep_data ep))) = 0 ->
+  t_used_src_srv_opt ep EL_INSITU ACS = 0 ->
+  fraccion_renovable_acs_nrb ep
+  = (do nb <- q_nrb_non_biomass (ep_factors ep) (dhw_used_by_cr ep); do fr <- ren_fraction (ep_factors ep) BIOMASA;
+     do o <- biomass_out (ep_data ep) BIOMASA; Ok ((snd nb + o * fr) / qsum v)).
+Proof. intros. eapply dhw_biomass_mixed; eassumption. Qed.
+
+(** ... and without declared output energy there is an error instead of a number *)
+Theorem C15_biomass_mixed_without_output : forall ep v nb fr,
+  nd_ACS (ep_needs ep) = Some v -> ~ qabs (qsum v) < f32_epsilon ->
+  dhw_used_by_cr ep <> nil -> aget (dhw_used_by_cr ep) ELECTRICIDAD = None ->
+  match aget (dhw_used_by_cr ep) EAMBIENTE with Some A => qfrac 1 100 <= A | None => True end ->
+  ahas (dhw_used_by_cr ep) BIOMASA = true -> ahas (dhw_used_by_cr ep) BIOMASADENSIFICADA = false ->
+  forallb (fun p => cr_is_nearby (fst p)) (dhw_used_by_cr ep) = false ->
+  qsum (map vals_sum (filter (fun e => is_used e && has_carrier EAMBIENTE e && contains (e_cmt e) TAG_EXCLUYE_SCOP) (ep_data ep))) = 0 ->
+  t_used_src_srv_opt ep EL_INSITU ACS = 0 ->
+  q_nrb_non_biomass (ep_factors ep) (dhw_used_by_cr ep) = Ok nb -> ren_fraction (ep_factors ep) BIOMASA = Ok fr ->
+  biomass_out (ep_data ep) BIOMASA = Err WrongInput -> fraccion_renovable_acs_nrb ep = Err WrongInput.
+Proof. intros. eapply dhw_biomass_mixed_without_output; eassumption. Qed.
+
 Print Assumptions C15_no_demand.
 Print Assumptions C15_zero_demand.
 Print Assumptions C15_k_independent.
@@ -102,3 +171,8 @@ Print Assumptions C15_no_dhw_use.
 Print Assumptions C15_nearby_supply_closed_form.
 Print Assumptions C15_solar_boiler.
 Print Assumptions C15_direct_electric_closed_form.
+Print Assumptions C15_without_biomass.
+Print Assumptions C15_heat_pump.
+Print Assumptions C15_biomass_nearby.
+Print Assumptions C15_biomass_mixed.
+Print Assumptions C15_biomass_mixed_without_output.
